@@ -344,6 +344,10 @@ class Builder:
         self.emit_with_edits(rel, src, a, b, edits, fn=None)
 
     def emit_with_edits(self, rel, src, a, b, edits, fn=None):
+        # an edit that replaces a whole region (order 9: rule R34's error-message closure) drops the edits inside it
+        big = [e for e in edits if e.order == 9]
+        if big:
+            edits = [e for e in edits if e.order == 9 or not any(g.a <= e.a and e.b <= g.b for g in big)]
         edits = sorted(edits, key=lambda e: (e.a, e.order))
         pos = a
         for e in edits:
@@ -742,7 +746,10 @@ class Builder:
             edits.append(Edit(a + mm.start(), a + mm.end(), []))
             self.count("R1.await")
         # R3: |_| closure parameters
+        r34 = any(r[0] == "R34" for r in (xopts or {}).get("rules", []))
         for mm in re.finditer(r"\|\s*_\s*\|", m[a:b]):
+            if r34 and re.search(r"map_err\s*\(\s*$", m[a:a + mm.start()]):
+                continue  # rule R34 replaces the whole closure
             edits.append(Edit(a + mm.start(), a + mm.end(), [Seg("|_e|", "repo", fn=qual)]))
             self.count("R3")
         # R3b: closure parameters that are patterns (`|&x|`, `|(a, b)|`) -> variable + destructuring `let`
@@ -1181,6 +1188,60 @@ class Builder:
                     edits.append(Edit(a + mm.start(), a + mm.end(), [Seg(" { Some(%s) => { " % mm.group(1), "repo", fn=qual)]))
                     edits.append(Edit(cp, cp + 1, [Seg(" } None => None })", "repo", fn=qual)], order=5))
                     self.count("R31")
+            if rule[0] == "R33":
+                # `while let PAT = EXPR { BODY }` -> `loop { match EXPR { PAT => { BODY } _ => { break; } } }` (the definition of while let)
+                for mm in re.finditer(r"(?<![A-Za-z0-9_])while\s+let\s+", m[a:b]):
+                    ws = a + mm.start()
+                    eq = m.index("=", a + mm.end())
+                    # the loop body: first `{` at bracket depth 0 after the `=`
+                    k = eq + 1
+                    depth = 0
+                    while k < b:
+                        ch = m[k]
+                        if ch in "([":
+                            depth += 1
+                        elif ch in ")]":
+                            depth -= 1
+                        elif ch == "{" and depth == 0:
+                            break
+                        k += 1
+                    cb = rs.match_close(m, k)
+                    pat = src[a + mm.end():eq].strip()
+                    expr = src[eq + 1:k].strip()   # copied as it stands (no rewrite rule applies inside it)
+                    edits.append(Edit(ws, k, [Seg("loop ", "repo", fn=qual)]))
+                    # (a loop contract is inserted here, at the position of the body's brace, by the `loop N` clause)
+                    edits.append(Edit(k, k + 1, [Seg("{ match %s { %s => {" % (expr, pat), "repo", fn=qual)], order=3))
+                    edits.append(Edit(cb, cb + 1, [Seg("} _ => { break; } } }", "repo", fn=qual)], order=5))
+                    self.count("R33")
+            if rule[0] == "R34":
+                # key visitor of serde_workaround!: `value.try_into()` (an unsigned integer to u8) -> trusted `vx_try_into_u8()`;
+                # the closure that only builds the error *message* (`E::invalid_value(.., &format!(..))`) -> `E::vx_invalid_value()`
+                for mm in re.finditer(r"\.\s*try_into\s*\(\s*\)", m[a:b]):
+                    edits.append(Edit(a + mm.start(), a + mm.end(), [Seg(".vx_try_into_u8()", "repo", fn=qual)]))
+                    self.count("R34")
+                for mm in re.finditer(r"\.\s*map_err\s*\(\s*\|\s*_\s*\|", m[a:b]):
+                    op = a + mm.start() + m[a + mm.start():a + mm.end()].index("(")
+                    cp = rs.match_close(m, op)
+                    if "invalid_value" in m[op:cp]:
+                        edits.append(Edit(op + 1, cp, [Seg("|_e| E::vx_invalid_value()", "repo", fn=qual)], order=9))
+                        self.count("R34")
+            if rule[0] == "R37":
+                # `deserialize_with` members of serde_workaround!: the wrapper struct `__DeserializeWith` and its Deserialize impl are
+                # declared *inside* the match arm; Verus has no items in function bodies, so the two items are taken out (the unit
+                # declares the wrapper type; what decoding through the named function yields is `de_val` of the wrapper type)
+                for mm in re.finditer(r"(?<![A-Za-z0-9_])struct\s+__DeserializeWith\b|(?<![A-Za-z0-9_])impl\s*<'de>\s*::serde::Deserialize<'de>\s*for\s+__DeserializeWith\b", m[a:b]):
+                    st = a + mm.start()
+                    try:
+                        _h, _bo, en = rs._item_extent(src, m, st)
+                    except rs.ScanError:
+                        continue
+                    edits.append(Edit(st, en, [], order=9))
+                    self.count("R37")
+            if rule[0] == "R36":
+                # `X.unwrap_or_default()` -> `vx_unwrap_or_default(X)` (trusted wrapper; the default of each type is `VxDefault::vx_default`)
+                for mm in re.finditer(r"(?<![A-Za-z0-9_.])([A-Za-z_][A-Za-z0-9_]*)\s*\.\s*unwrap_or_default\s*\(\s*\)", m[a:b]):
+                    edits.append(Edit(a + mm.start(), a + mm.end(), [Seg("vx_unwrap_or_default(%s)" % mm.group(1), "repo", fn=qual)]))
+                    self.count("R36")
             if rule[0] == "R32":
                 # log::warn!(..) etc. have no effect on the result: removed
                 for mm in re.finditer(r"(?<![A-Za-z0-9_])log\s*::\s*(?:warn|info|debug|error|trace)\s*!\s*\(", m[a:b]):
